@@ -3,8 +3,8 @@ From Ivv Require Import MT.WorkMT MT.WorkMTBase MT.WorkMTSpec MT.WorkMTCs MT.Wor
 Import ListNotations.
 Local Open Scope Z_scope.
 
-Lemma W5_lock : forall s l s', (lock s = None -> todo s = []) -> W1b s -> HFX s -> W5 s ->
-  (match l with LLock _ => True | _ => False end) ->
+Lemma W5_rest : forall s l s', (lock s = None -> todo s = []) -> W1b s -> HFX s -> W5 s ->
+  (match l with LCreate _ _ | LSubmit _ _ | LLocal _ _ | LPut _ | LEnd _ | LCallback _ | LWork _ _ | LRet _ _ | LCompl _ _ | LHookStart _ | LTExit _ | LTFin _ | LTJoin _ _ | LBlock _ | LMain _ | LMainEnd _ | LQuiescent | LDone => True | _ => False end) ->
   step s l = Some s' -> W5 s'.
 Proof.
   intros s l s' AT A1b HF I LL H.
